@@ -185,8 +185,7 @@ def conditions(tier, seed, active):
     for d in (3, 4, 6, 7):
         for k in cand.keywords(d):
             kinds = cand.kinds_for(k)
-            if quick:
-                kinds = rng.sample(cand.BASE_KINDS, 2)
+            kinds = rng.sample(cand.BASE_KINDS, 2) if quick else rng.sample(kinds, min(5, len(kinds)))
             for kind in kinds:
                 out.append(dict(id="invalid-schema/%s/%s/d%d" % (k, kind, d), module=__name__, factory="invalid_schema",
                                 params=dict(d=d, k=k, kind=kind), timeout=900, tags=[], witness=[]))
